@@ -332,6 +332,25 @@ def dump_table(repo, ci, _depth=0):
                             and not c.args[0].args and all(k.arg is not None for k in c.args[0].keywords) and not c.keywords:
                         for kw in c.args[0].keywords:              # D.update(dict(key=value, ...))
                             add(kw.arg, n, kw.value, False)
+                    elif m == "update" and len(c.args) == 1 and not c.keywords and isinstance(c.args[0], (ast.DictComp, ast.GeneratorExp, ast.ListComp)) \
+                            and len(c.args[0].generators) == 1 and isinstance(c.args[0].generators[0].target, ast.Name) and not c.args[0].generators[0].ifs:
+                        # D.update({name: getattr(self, name) for name in NAMES}) / D.update((name, getattr(self, name)) for name in NAMES)
+                        v = c.args[0]
+                        var = v.generators[0].target.id
+                        lst = _literal_list(fl, v.generators[0].iter, n)
+                        if isinstance(v, ast.DictComp):
+                            kx, vx = v.key, v.value
+                        elif isinstance(v.elt, (ast.Tuple, ast.List)) and len(v.elt.elts) == 2:
+                            kx, vx = v.elt.elts
+                        else:
+                            kx = vx = None
+                        if lst is None or kx is None or dotted(kx) != var:
+                            raise AnalysisError(f"{f.qual}: mutation of {dname} not recognised: {src(c)}")
+                        byname = isinstance(vx, ast.Call) and call_name(vx) == "getattr" and len(vx.args) >= 2 and dotted(vx.args[0]) == sn and dotted(vx.args[1]) == var
+                        if not byname:
+                            raise AnalysisError(f"{f.qual}: update value is not getattr(self, name): {src(c)}")
+                        for k in lst:
+                            add(k, n, vx, True)
                     else:
                         raise AnalysisError(f"{f.qual}: mutation of {dname} not recognised: {src(c)}")
     if not recognised_init:
